@@ -160,7 +160,7 @@ func sprintf(f string, a ...interface{}) string { return fmtSprintf(f, a...) }
 
 var fmtSprintf = fmt.Sprintf
 
-var propC20 = &propInfo{Engine: "C", Level: "exploration", Race: false, Instr: true, RaceAlso: os.Getenv("VERIF_RACE_VARIANT") == "1", QuickS: 50, ThoroughS: 900, PerRunS: 40,
+var propC20 = &propInfo{Engine: "C", Level: "exploration", Race: false, Instr: true, RaceAlso: os.Getenv("VERIF_RACE_VARIANT") == "1", QuickS: 50, ThoroughS: 900, PerRunS: 120,
 	Rule:    "runs are plans generated from mix64(VERIF_SEED, property, run index): 2-4 (quick) / 2-8 (thorough) goroutines with 2-12 scripted calls each (increments with distinct power-of-two deltas, gets, puts of unique values, removes, inserts of unique tags, transactions incl. failing ones whose body can be pre-empted between its calls) on ONE shared Counter / Map / List object, plus a sync goroutine calling Sync() against a model server that also feeds operations of a remote replica; a seeded scheduler decides at every scheduling point (hook H6: lock acquisition, the begin/unlock windows of the transaction layer, pack creation and application) who runs next. Non-trivial: >= 2 goroutines and > 10 scheduling decisions; distinct = distinct hash of the sequence of (task, site) decisions.",
 	Oracles: []string{"C20.no-panic / process-crash (incl. runtime fatal errors such as unlock of an unlocked mutex)", "C20.no-deadlock", "C20.queued-once-in-order", "C20.tx-not-interleaved", "C20.no-lost-update (shared object == replay of the stream; counter == sum)", "C20.linearizable (porcupine, counter and map histories)"},
 	Assumptions: []string{
@@ -177,7 +177,7 @@ var propC20 = &propInfo{Engine: "C", Level: "exploration", Race: false, Instr: t
 // propC18C: the thread-level engine also decides the "realtime clients push by themselves" part of C18:
 // user goroutines and every delivery goroutine the library starts are tasks of the scheduler, so the
 // windows between a delivery's last look at the buffer and the release of its semaphore are explored.
-var propC18C = &propInfo{Engine: "C", Level: "exploration", Instr: true, PerRunS: 40,
+var propC18C = &propInfo{Engine: "C", Level: "exploration", Instr: true, PerRunS: 120,
 	Rule:        "engine C, realtime mode only: plans as for C20 (2-4 / 2-8 goroutines with scripted calls on ONE shared Counter / Map / List of a realtime client, plus a goroutine calling Sync()); every local operation starts a delivery goroutine of the library, which is a task of the seeded scheduler like the user goroutines (scheduling points inserted before every statement of internal/datatypes and internal/managers). Non-trivial: >= 2 goroutines and > 10 scheduling decisions; distinct = distinct hash of the sequence of (task, site) decisions.",
 	Oracles:     []string{"C18.realtime-pushes-by-itself (all goroutines finished => nothing is left waiting to be pushed)", "C18.no-panic / no-deadlock"},
 	Assumptions: propC20.Assumptions, Components: propC20.Components}
